@@ -263,6 +263,21 @@ def gen_funcs_spec(rng, max_keys=5, contract=True):
             'sort': rng.random() < 0.6, 'seed': rng.randrange(10 ** 6), 'max_keys': max_keys}
 
 
+def gen_periph_perm_spec(rng):
+    """peripheral counts listed in any order (also for metabolite compartments / both), handed to the algorithms
+    exactly as convert_to_funcs() lists them (no sorting, as a direct caller of the algorithm functions gets them)"""
+    counts = rng.choice([[2, 1], [1, 2], [3, 1, 2], [0, 2, 1], [2, 0], [1, 3], [3, 2, 1], [0, 1, 2], [2, 3, 1]])
+    if rng.random() < 0.3:
+        counts = rng.sample([0, 1, 2, 3, 4], rng.choice([2, 3]))
+    mode = rng.choice(['', '', ',DRUG', ',MET', ',MET', ',*'])
+    parts = [f"PERIPHERALS([{','.join(map(str, counts))}]{mode})"]
+    if rng.random() < 0.5:
+        parts.append(rng.choice(['ABSORPTION(ZO)', 'ELIMINATION(MM)', 'LAGTIME(ON)', 'ABSORPTION([ZO,SEQ-ZO-FO])']))
+    rng.shuffle(parts)
+    return {'mfl': ';'.join(parts), 'drop': rng.choice(['base', 'base', 'none']), 'sort': rng.random() < 0.25,
+            'seed': rng.randrange(10 ** 6), 'max_keys': 5, 'keep': 'PERIPHERALS'}
+
+
 def build_funcs(spec):
     """mfl string -> the real dict of feature keys -> functions, reduced as the tool does."""
     import random
@@ -279,7 +294,8 @@ def build_funcs(spec):
     elif spec['drop'] == 'random':
         keys = [k for k in keys if r.random() < 0.7]
     while len(keys) > spec.get('max_keys', 5):
-        keys.pop(r.randrange(len(keys)))
+        cand = [i for i, k in enumerate(keys) if k[0] != spec.get('keep')] or list(range(len(keys)))
+        keys.pop(r.choice(cand))
     res = {k: funcs[k] for k in keys}
     if spec['sort']:
         res = {k: v for k, v in sorted(res.items(), key=lambda x: (x[0][0], x[0][1]))}
@@ -554,6 +570,8 @@ def gen_specs(rng, tier):
     for _ in range(n):
         s = gen_funcs_spec(rng, max_keys=rng.choice([3, 4, 5, 5, 6]))
         specs.append({'kind': 'red', **s})
+    for _ in range(30 if tier == 'quick' else 300):
+        specs.append({'kind': rng.choice(['step', 'step', 'red', 'allowed']), 'nq': 40, **gen_periph_perm_spec(rng)})
     for _ in range(n):
         s = gen_funcs_spec(rng, max_keys=8, contract=False)
         specs.append({'kind': 'allowed', 'nq': 40, **s})
@@ -574,12 +592,15 @@ def gen_specs(rng, tier):
     return specs
 
 
-FINDING_BY_TAG = {52: ('C18-PERIPH-ORDER', 201), 53: ('C18-PERIPH-ORDER', 201), 55: ('C18-REDUCED-SINGLE-GROUP', 202),
+FINDING_BY_TAG = {55: ('C18-REDUCED-SINGLE-GROUP', 202),
                   42: ('C18-EXHAUSTIVE-SET-ZIP', 204), 71: ('C18-LET-BYPASSES-VALIDATION', 217),
                   78: ('C18-TRANSITS-EQ-TUPLE', 218)}
-GUARD_TAGS = (201, 202, 204, 210, 211, 212, 213, 214, 215, 217, 218, 219)
+GUARD_TAGS = (201, 202, 203, 204, 210, 211, 212, 213, 214, 215, 217, 218, 219)
 # MFL algebra: oracle tag -> candidate (guard tag, finding) pairs, first guard that is false wins
 MFL_FINDINGS = {
+    # peripheral order / reachability: three or more counts (201), or counts not listed in increasing order (203)
+    52: [(201, 'C18-PERIPH-ORDER'), (203, 'C18-PERIPH-UNSORTED')],
+    53: [(201, 'C18-PERIPH-ORDER'), (203, 'C18-PERIPH-UNSORTED')],
     74: [(211, 'C18-EQ-COVARIATE-ONEWAY'), (212, 'C18-EQ-TUPLES-STRUCTURAL'), (213, 'C18-EQ-IGNORES-METABOLITE')],
     75: [(214, 'C18-SUBSET-TRANSITS-PRODUCT')],
     761: [(210, 'C18-MFL-WILDCARD')],
